@@ -355,7 +355,7 @@ pub fn reset_all() {
         CTX = CTX_CLIENT;
         CLOCK = 0;
         IN_UNIT = false;
-        IN_JOIN = false;
+        IN_JOIN = [false; 4];
         UNIT_IS_AWAITED = false;
         PLACE_ARMED = false;
         PLACE_FIRED = false;
@@ -392,21 +392,25 @@ pub fn run_loop(pool: usize) -> bool {
 /// every submitted task.  Code that follows the join in `stop()` therefore runs AFTER the
 /// loop, as with a real join that does not time out; a store lock that `stop()` still holds
 /// and the loop needs shows up as a deadlock (Mutex::lock stub).
-pub static mut IN_JOIN: bool = false;
+pub static mut IN_JOIN: [bool; 4] = [false; 4];
 pub fn on_join(kind: u8, obj: usize) {
     if kind != crossbeam::hooks::JOIN {
         return;
     }
+    // (per pool: a join of store B requested from inside store A's join is served too)
+    if obj >= 4 {
+        panic!("VERIF-BOUND: more than 4 pools");
+    }
     unsafe {
-        if IN_JOIN {
+        if IN_JOIN[obj] {
             return;
         }
-        IN_JOIN = true;
+        IN_JOIN[obj] = true;
     }
     run_loop(obj);
     run_pending(8);
     unsafe {
-        IN_JOIN = false;
+        IN_JOIN[obj] = false;
     }
 }
 /// default binding of the model's scheduling points for harnesses without placed units
